@@ -335,7 +335,25 @@ theorem send_type_mismatch_panics_with_lock_held_witness :
 theorem send_well_typed_releases_mu (s : FeedMu.Pro) (ty : Nat) (h : s.etype = none ∨ s.etype = some ty) :
     (FeedMu.sendPrologue s ty).2 = .proceeds ∧ (FeedMu.sendPrologue s ty).1.muLocked = false ∧
     (FeedMu.sendPrologue s ty).1.tokenFree = false := by
-  rcases h with h | h <;> simp [FeedMu.sendPrologue, h]
+  rcases h with h | h <;>
+    simp [FeedMu.sendPrologue, FeedMu.runOps, FeedMu.sendOps, FeedMu.typecheckOps, FeedMu.apply, h]
+
+/-- `f.etype` is written (lazily, on first use) only with `f.mu` held — and read only with `f.mu` held — in BOTH `Send` and
+    `Subscribe`, for every current element type and every argument type.  This is the obligation behind the "no data race
+    on first use" clause; the race-detector sub-run of the harness checks the real code against it. -/
+theorem etype_write_requires_mu (et : Option Nat) (ty : Nat) :
+    FeedMu.accessesGuarded false (FeedMu.sendOps et ty) = true ∧
+    FeedMu.accessesGuarded false (FeedMu.subscribeOps et ty) = true := by
+  cases et with
+  | none => simp [FeedMu.sendOps, FeedMu.subscribeOps, FeedMu.typecheckOps, FeedMu.accessesGuarded]
+  | some t =>
+    by_cases h : t = ty <;>
+      simp [FeedMu.sendOps, FeedMu.subscribeOps, FeedMu.typecheckOps, FeedMu.accessesGuarded, h]
+
+/-- the seeded shape (type check hoisted in front of the locks) breaks exactly that obligation: first use writes `f.etype`
+    without `f.mu`. -/
+theorem etype_write_hoisted_unguarded_witness :
+    FeedMu.accessesGuarded false (FeedMu.sendOpsHoisted none 0) = false := by decide
 
 example : (⟨true, false, none⟩ : FeedMu.Pro).etype = none ∨ (⟨true, false, none⟩ : FeedMu.Pro).etype = some 3 := Or.inl rfl
 
